@@ -373,6 +373,11 @@ func (w *world) addPair(pre []*transaction.Transaction, ta, tb *transaction.Tran
 	}
 	la = append(la, post...)
 	lb = append(lb, post...)
+	return w.addLists(la, lb)
+}
+
+// addLists adds the next block to both chains with the given transactions.
+func (w *world) addLists(la, lb []*transaction.Transaction) error {
 	if w.A.AddBlock(la...) == nil {
 		return fmt.Errorf("chain A: %v", w.A.Rejected)
 	}
@@ -384,19 +389,24 @@ func (w *world) addPair(pre []*transaction.Transaction, ta, tb *transaction.Tran
 	return nil
 }
 
-func skipName(n string, skipTx int) bool {
+func skipName(n string, skipTx []int) bool {
 	switch n {
 	case "current_block_hash", "header_hash_at_height", "tip_block":
 		return true
 	}
-	return skipTx >= 0 && n == fmt.Sprintf("tx_aer:%d", skipTx)
+	for _, x := range skipTx {
+		if x >= 0 && n == fmt.Sprintf("tx_aer:%d", x) {
+			return true
+		}
+	}
+	return false
 }
 
 // diffObs compares two observations ignoring block hashes (the blocks hold
 // different transactions) and the execution result of the transaction under
 // test. It returns the normalised name of the most specific differing field
 // and a description.
-func diffObs(a, b *vchain.Observation, skipTx int) (string, string) {
+func diffObs(a, b *vchain.Observation, skipTx ...int) (string, string) {
 	if a.Height != b.Height {
 		return "height", fmt.Sprintf("height %d vs %d", a.Height, b.Height)
 	}
